@@ -267,6 +267,22 @@ uint64_t api_call(const Op &op, const Vals &v_in, const Prefill &pf, bool &ok) {
                 d.u64(varintBitmapCardinality(b2));
                 varintBitmapFree(b2);
             }
+            if (op.u("churn")) {
+                // down across the container threshold, up again, and down once more before the
+                // object dies: whatever an object leaves behind when it changes shape must not
+                // show in the next object's answers
+                for (int round = 0; round < 2; round++) {
+                    size_t i = 0;
+                    while (varintBitmapCardinality(vb) > 4095 && i < n) varintBitmapRemove(vb, (uint16_t)in[i++]);
+                    if (round == 1) break;
+                    for (size_t j = 0; j < i; j++) varintBitmapAdd(vb, (uint16_t)in[j]);
+                    Buf out(70000 * 2, pf, 3);
+                    uint32_t c = varintBitmapToArray(vb, (uint16_t *)out.p);
+                    d.u64(c);
+                    d.bytes(out.p, std::min<size_t>(c, 70000) * 2);
+                    d.u64(varintBitmapContains(vb, (uint16_t)(in[0] ^ 1)));
+                }
+            }
             varintBitmapFree(vb);
         }
     } else if (k.rfind("rle.", 0) == 0) {
@@ -342,7 +358,7 @@ class Residue : public Engine {
     bool restart_after_violation() const override { return true; }
     unsigned hang_timeout_s() const override { return 6; }
     std::vector<std::string> fixed_args() const override {
-        return {"enc", "meta", "precision", "mode", "err", "threshold", "batch", "fresh", "range", "specials", "only"};
+        return {"enc", "meta", "precision", "mode", "err", "threshold", "batch", "fresh", "range", "specials", "only", "churn"};
     }
 
     Plan generate(uint64_t seed, Tier tier) override {
@@ -373,6 +389,10 @@ class Residue : public Engine {
         if (op.kind == "bitmap.roundtrip") {
             cls = ARR_STRICT_INC16;
             if (r.chance(1, 4)) op.set("range", r.range(1, 255));
+            if (r.chance(1, 4)) { // enough members to cross the array/bitmap threshold both ways
+                op.set("churn", 1);
+                n = 4097 + r.below(700);
+            }
         }
         if (op.kind.rfind("dict.", 0) == 0 && r.chance(1, 2)) cls = ARR_LOWCARD;
         if ((op.kind == "adaptive.encode_with" || op.kind == "adaptive.decode") && op.u("enc") == VARINT_ADAPTIVE_BITMAP)
